@@ -1,15 +1,66 @@
 /-
   C09  t-wise samples contain only models and cover every valid t-interaction.
 
-  The randomised construction is not modelled (it depends on hash iteration order and an RNG).
-  What is proved is the soundness of the checker `TWise.check` that the driver runs on every sample
-  the real code returns: an accepted sample has the property, for every well-formed node array,
-  every `t` and every sample.  The property itself is therefore established per run
-  (validation of each output by a verified checker), not for all runs.
+  Two layers.
+  (1) The construction itself, plain variant (`Ddnnf::sample_t_wise`): `TW.run nodes n t q`
+      (`Model/TWiseGen.lean`) is the bottom-up construction of ddnnife — one partial sample per node, zip +
+      cover of the cross interactions at and-nodes, similarity merge at or-nodes, trim / resample /
+      completion at the root, with the cached SAT states of the configurations.  Everything the real
+      code takes from a hash iteration order, from `sort_unstable` on equal keys, from floating point
+      ranks and from the random number generator is the queue `q` of recorded choices; an entry that is
+      not admissible is ignored.  `construction_returns_only_models` and
+      `construction_covers_every_valid_interaction` hold for EVERY queue, hence for every run of the
+      real code whose recorded choices replay to the same sample — which the harness checks on every
+      run (`q twgen`: same configurations in the same order, no recorded choice rejected, none left).
+  (2) Any sample (plain or fitness-guided): soundness of the checker `TWise.check` that the driver
+      runs on every sample the real code returns.  For the fitness-guided variant
+      (`ExtendedDdnnf::sample_t_wise`: attribute mergers, best-configuration completion) this is the only
+      layer: validation of each output by a verified checker, not a proof of that construction.
 -/
 import DdnnfVerif.Proofs.TWise
+import DdnnfVerif.Proofs.TW.Root
+import DdnnfVerif.Proofs.TW.EndToEnd
+import DdnnfVerif.Proofs.WFCheck
 namespace Ddnnf.C09
 open Ddnnf.TWise
+
+/-! ### (1) the construction -/
+
+/-- Whatever the hash orders, the sort, the ranks and the shuffles were: every configuration the
+construction returns decides every feature and is a model. -/
+theorem construction_returns_only_models (nodes : List NType) (n : Nat) (h : WF nodes n)
+    (hu : LitUnique nodes) (t : Nat) (ht : 1 ≤ t) (q : TW.Queue) :
+    ∀ c ∈ (TW.run nodes n t q).configs, Complete n c ∧ ∃ m ∈ models nodes (rootIx nodes), m.Perm c :=
+  TW.run_valid_all nodes n h hu t ht q
+
+/-- … and every set of `t` literals over distinct features that is contained in at least one model is
+contained in at least one configuration it returns. -/
+theorem construction_covers_every_valid_interaction (nodes : List NType) (n : Nat) (h : WF nodes n)
+    (hu : LitUnique nodes) (t : Nat) (ht : 1 ≤ t) (q : TW.Queue)
+    (I : List Int) (hlen : I.length = t) (hrange : ∀ l ∈ I, l ≠ 0 ∧ l.natAbs ≤ n)
+    (hdistinct : (I.map Int.natAbs).Nodup) (hsat : 0 < specCount nodes n I) :
+    ∃ c ∈ (TW.run nodes n t q).configs, ∀ l ∈ I, l ∈ c :=
+  TW.run_covers_all nodes n h hu t ht q I hlen hrange hdistinct hsat
+
+/-- an unsatisfiable model yields no configuration at all -/
+theorem construction_on_unsatisfiable_model_returns_nothing (nodes : List NType) (n : Nat) (h : WF nodes n)
+    (hzero : count nodes (rootIx nodes) = 0) (t : Nat) (q : TW.Queue) : (TW.run nodes n t q).configs = [] :=
+  TW.run_void_of_unsat nodes n h hzero t q
+
+/-- End to end for d4 texts (hypothesis: the executable conventions check of C01): whatever the
+recorded choices, the construction on the loaded array returns only complete configurations that
+satisfy the TEXT, and covers every set of t literals over distinct features that some assignment
+satisfying the text contains. -/
+theorem d4_end_to_end_twise_only_models : type_of% @D4.loaded_twise_only_models := @D4.loaded_twise_only_models
+theorem d4_end_to_end_twise_covers : type_of% @D4.loaded_twise_covers := @D4.loaded_twise_covers
+
+/-- non-vacuity: the hypotheses hold for the small example of the repository, so for every recorded
+run on it (any queue) and `t = 2` the sample consists of models only -/
+example (q : TW.Queue) : ∀ c ∈ (TW.run smallEx 4 2 q).configs, Complete 4 c ∧ ∃ m ∈ models smallEx (rootIx smallEx), m.Perm c :=
+  construction_returns_only_models smallEx 4 (wfB_sound _ _ (by decide)) (litUniqueB_sound _ (by decide))
+    2 (by decide) q
+
+/-! ### (2) the checker -/
 
 /-- an accepted sample consists of complete configurations that are models … -/
 theorem accepted_sample_contains_only_models (nodes : List NType) (n t : Nat) (h : WF nodes n)
